@@ -1,3 +1,194 @@
-/-! # C08 — property theorems (stub: not built yet) -/
+import PymtlVerif.Proofs.Nets
+import PymtlVerif.Proofs.NetsElab
+/-!
+# C08 — connected signals form single-writer nets independent of connect order
+
+Model: `Model/Nets.lean` (`nets` = `_floodfill_nets`, `resolve` = `_resolve_value_connections`).
+Objects are numbered; `Reach E` is undirected reachability over the connect statements `E`.
+
+What is proved here, for every design / edge list:
+* `component` (frontier expansion, fuel `|nodes|`, sufficiency proved) is exactly `Reach`;
+* `nets` = the `Reach` classes with at least two members, each exactly once, in canonical form;
+* nets **and** the whole result of writer resolution are unchanged by permuting the connect
+  statements and by swapping the two sides of any of them;
+* writer characterisation against an order-free least-fixed-point specification (`Mark`, `Src`):
+  the writer of a resolved net is a member that is driven from outside the net, and it is the only
+  such member; a net left without writer has no such member; the marks the rounds collect are
+  exactly the specified ones;
+* `Src` read on bits: a member is a source iff it is a constant or shares a bit with an object
+  marked from elsewhere (block-written, top-level input, reader of another net).
+
+Not proved here (by correspondence only): that the implementation's own iteration order over Python
+sets gives the same result as the model's canonical order (the model's result is characterised
+order-free, the implementation is compared with it for several statement orders), and the
+simulation part ("every member carries the writer's value").
+-/
 namespace PV.C08
+open PV.Nets
+
+/-- frontier expansion to the fixed point computes exactly the reachable set (no fuel hypothesis:
+`|nodes|` rounds are proved to suffice) -/
+theorem component_sound_complete (E : List Edge) (a b : Nat) : b ∈ component E a ↔ Reach E a b :=
+  mem_component E a b
+
+theorem component_is_closed (E : List Edge) (a : Nat) : closed E (component E a) = true :=
+  component_closed E a
+
+/-- every net is a strictly increasing list with at least two members and is exactly the
+reachability class of its least member -/
+theorem nets_are_classes (E : List Edge) (N : List Nat) (h : N ∈ nets E) :
+    List.Pairwise (· < ·) N ∧ 2 ≤ N.length ∧ rep N ∈ N ∧ ∀ b, b ∈ N ↔ Reach E (rep N) b :=
+  nets_spec h
+
+/-- every class with two different members is a net -/
+theorem nets_cover_classes (E : List Edge) (a b : Nat) (hr : Reach E a b) (hne : a ≠ b) :
+    ∃ N ∈ nets E, a ∈ N ∧ b ∈ N :=
+  nets_cover hr hne
+
+/-- each class exactly once: no net is listed twice and two nets never share a member -/
+theorem nets_each_once (E : List Edge) :
+    (nets E).Nodup ∧ ∀ N ∈ nets E, ∀ M ∈ nets E, ∀ x, x ∈ N → x ∈ M → N = M :=
+  ⟨nets_nodup E, fun _ hN _ hM _ hxN hxM => nets_disjoint hN hM hxN hxM⟩
+
+/-- the nets are a function of the undirected edge *set* -/
+theorem nets_edge_set (E E' : List Edge) (h : ∀ a b, Step E a b ↔ Step E' a b) : nets E = nets E' :=
+  nets_congr h
+
+/-- permuting the connect statements: same nets, same writers (the whole resolution result) -/
+theorem perm_invariant (D : Design) (c : List (Nat × Nat × Nat)) (hp : c.Perm D.conns) :
+    (D.withConns c).nets = D.nets ∧ resolve (D.withConns c) = resolve D := by
+  have hn : (D.withConns c).nets = D.nets := nets_congr (fun a b => step_perm (hp.map _) a b)
+  exact ⟨hn, resolve_withConns D c hn⟩
+
+/-- swapping the two sides of any subset of the connect statements: same nets, same writers -/
+theorem flip_invariant (D : Design) (p : Nat → Bool) :
+    (D.withConns (flipConns p D.conns)).nets = D.nets ∧
+    resolve (D.withConns (flipConns p D.conns)) = resolve D := by
+  have h := elaborate_flip D p
+  have hn : (D.withConns (flipConns p D.conns)).nets = D.nets := by
+    apply nets_congr
+    intro a b
+    have key : ∀ (c : List (Nat × Nat × Nat)) (x y : Nat),
+        Step (c.map (fun e => (e.1, e.2.1))) x y ↔ ∃ q, (x, y, q) ∈ c ∨ (y, x, q) ∈ c := by
+      intro c x y
+      unfold Step
+      simp only [List.mem_map, Prod.mk.injEq]
+      constructor
+      · rintro (⟨⟨a1, a2, a3⟩, he, h1, h2⟩ | ⟨⟨a1, a2, a3⟩, he, h1, h2⟩)
+        · simp only at h1 h2; subst h1 h2; exact ⟨a3, Or.inl he⟩
+        · simp only at h1 h2; subst h1 h2; exact ⟨a3, Or.inr he⟩
+      · rintro ⟨q, h | h⟩
+        · exact Or.inl ⟨_, h, rfl, rfl⟩
+        · exact Or.inr ⟨_, h, rfl, rfl⟩
+    show Step ((flipConns p D.conns).map _) a b ↔ Step (D.conns.map _) a b
+    rw [key, key]
+    exact exists_congr (fun q => mem_flipConns p D.conns a b q)
+  exact ⟨hn, resolve_withConns D _ hn⟩
+
+/-- writer characterisation: the writer of a resolved net is a member of it that is driven from
+outside the net (a constant, or sharing a bit with an object marked by an update block, as a
+top-level input port, or as a reader of another net), and every member driven from outside is that
+writer -/
+theorem writer_unique (D : Design) (hwf : D.WF) (st : RState) (h : resolve D = .ok st)
+    (w : Nat) (N : List Nat) (hN : (w, N) ∈ st.headed) :
+    N ∈ D.nets ∧ w ∈ N ∧ Src D (rep N) w ∧ ∀ x ∈ N, Src D (rep N) x → x = w := by
+  obtain ⟨hI, hP, hfin⟩ := (resolve_spec (D.rel_symm hwf.slices)).1 st h
+  refine ⟨(hI.hnets _ hN).1, (hI.hnets _ hN).2.1, hI.srcT_sound (hI.wsrc _ hN), ?_⟩
+  intro x hx hs
+  exact hI.key _ hN x hx ((src_iff_srcT hI hP hfin _ _).mp hs)
+
+/-- resolved nets and nets without writer together are the nets of the design, each once -/
+theorem every_net_once (D : Design) (hwf : D.WF) (st : RState) (h : resolve D = .ok st) :
+    (st.headed.map (·.2) ++ st.headless).Perm D.nets := by
+  have := ((resolve_spec (D.rel_symm hwf.slices)).1 st h).2.1
+  unfold Part at this
+  simpa using this
+
+/-- a net is left without writer only if none of its members is driven from outside -/
+theorem headless_has_no_source (D : Design) (hwf : D.WF) (st : RState) (h : resolve D = .ok st)
+    (N : List Nat) (hN : N ∈ st.headless) : ∀ x ∈ N, ¬ Src D (rep N) x := by
+  obtain ⟨hI, hP, hfin⟩ := (resolve_spec (D.rel_symm hwf.slices)).1 st h
+  intro x hx hs
+  have hm : x ∈ N.filter (drivenBy D st.marks) := List.mem_filter.mpr ⟨hx, drivenBy_of_src hI hP hfin hs⟩
+  rw [hfin N hN] at hm
+  cases hm
+
+/-- the marks collected by the rounds are exactly the order-free specification `Mark` -/
+theorem marks_are_spec (D : Design) (hwf : D.WF) (st : RState) (h : resolve D = .ok st)
+    (t : Nat) (o : Origin) : (t, o) ∈ st.marks ↔ Mark D t o := by
+  obtain ⟨hI, hP, hfin⟩ := (resolve_spec (D.rel_symm hwf.slices)).1 st h
+  exact ⟨fun hm => hI.sound _ hm, fun hm => mark_complete hI hP hfin hm⟩
+
+/-- the only error of writer resolution is `MultiWriterError`, raised iff some net has two
+different members that are both driven from outside -/
+theorem two_writers_iff (D : Design) (hwf : D.WF) :
+    ((∃ e, resolve D = .error e) ↔ Bad D) ∧ ∀ e, resolve D = .error e → e = .multiWriter :=
+  ⟨resolve_error_iff D (D.rel_symm hwf.slices), fun e he => ((resolve_spec (D.rel_symm hwf.slices)).2 e he).1⟩
+
+/-- "driven from outside", read on bits: `x` is a constant or has a bit that also belongs to an
+object marked from elsewhere -/
+theorem src_iff_bits (D : Design) (L : Leaves) (r x : Nat) (hx : WfObj L (D.obj x))
+    (hm : ∀ t o, Mark D t o → WfObj L (D.obj t)) :
+    Src D r x ↔ D.isConst x = true ∨
+      ∃ bit, ValidBit L bit ∧ covers (D.obj x) bit ∧ ∃ t o, Mark D t o ∧ o ≠ Origin.net r ∧ covers (D.obj t) bit := by
+  unfold Src
+  constructor
+  · rintro (h | ⟨t, o, hmk, ho, hr⟩)
+    · exact Or.inl h
+    · obtain ⟨bit, hv, c1, c2⟩ := (related_iff_overlap L _ _ hx (hm t o hmk)).mp hr
+      exact Or.inr ⟨bit, hv, c1, t, o, hmk, ho, c2⟩
+  · rintro (h | ⟨bit, hv, c1, t, o, hmk, ho, c2⟩)
+    · exact Or.inl h
+    · exact Or.inr ⟨t, o, hmk, ho, (related_iff_overlap L _ _ hx (hm t o hmk)).mpr ⟨bit, hv, c1, c2⟩⟩
+
+/-- confluence of the propagation: started from **any** order of the nets and of the initial marks
+(the two things the implementation obtains by iterating Python sets), the rounds raise iff some net
+has two members driven from outside, and otherwise end with exactly the order-free result: `(w, N)`
+is resolved iff `w` is the member of net `N` driven from outside, `N` stays without writer iff it
+has no such member. (`resolve D` is the instance `T0 = initMarks D`, `ns = D.nets`.) -/
+theorem propagation_confluent (D : Design) (hwf : D.WF) (T0 : Marks) (ns : List (List Nat))
+    (hT : ∀ m, m ∈ T0 ↔ m ∈ initMarks D) (hns : ns.Perm D.nets) :
+    ((∃ e, resolveFrom D T0 ns = .error e) ↔ Bad D) ∧
+    (∀ e, resolveFrom D T0 ns = .error e → e = .multiWriter) ∧
+    ∀ st, resolveFrom D T0 ns = .ok st →
+      (∀ w N, (w, N) ∈ st.headed ↔ N ∈ D.nets ∧ w ∈ N ∧ Src D (rep N) w) ∧
+      (∀ N, N ∈ st.headless ↔ N ∈ D.nets ∧ ∀ x ∈ N, ¬ Src D (rep N) x) := by
+  obtain ⟨hok, herr⟩ := resolveFrom_spec (D.rel_symm hwf.slices) T0 ns hT hns
+  refine ⟨⟨fun ⟨e, he⟩ => (herr e he).2, ?_⟩, fun e he => (herr e he).1, ?_⟩
+  · intro hb
+    cases hr : resolveFrom D T0 ns with
+    | error e => exact ⟨e, rfl⟩
+    | ok st => exact absurd hb (hok st hr).not_bad
+  · intro st hr
+    exact ⟨(hok st hr).headed_iff, (hok st hr).headless_iff⟩
+
+theorem resolve_is_resolveFrom (D : Design) : resolve D = resolveFrom D (initMarks D) D.nets := rfl
+
+/-! ## non-vacuity -/
+
+example : nets [(0, 1), (2, 1), (5, 6), (7, 7)] = [[0, 1, 2], [5, 6]] := by decide
+
+/-- a chain across nets: block 0 writes `x` (a struct, object 5); `x` drives `y` (4); the field
+`y.1` (3) drives `z` (2); the slice `z[0:4]` (1) drives `o` (0); a constant (7) drives `k` (6).
+In the canonical order of the nets the writers need three rounds. -/
+def exD : Design :=
+  { objs := [⟨3, .outp, 0, [], none⟩, ⟨2, .wire, 0, [], some (0, 4)⟩, ⟨2, .wire, 0, [], none⟩, ⟨1, .wire, 0, [1], none⟩,
+             ⟨1, .wire, 0, [], none⟩, ⟨0, .wire, 0, [], none⟩, ⟨4, .wire, 0, [], none⟩, ⟨9, .const, 0, [], none⟩],
+    par := [none],
+    conns := [(1, 0, 0), (3, 2, 0), (5, 4, 0), (6, 7, 0)],
+    blks := [⟨0, false, [(5, .at)], []⟩] }
+
+example : exD.wf = true := by decide
+example : (resolve exD).toOption.map (·.headed) = some [(5, [4, 5]), (7, [6, 7]), (3, [2, 3]), (1, [0, 1])] := by
+  decide
+/-- the same design visited in the opposite order of nets: other round structure, same writers -/
+example : (resolveFrom exD (initMarks exD).reverse exD.nets.reverse).toOption.map (·.headed) =
+    some [(7, [6, 7]), (5, [4, 5]), (3, [2, 3]), (1, [0, 1])] := by decide
+example : resolve (exD.withConns exD.conns.reverse) = resolve exD :=
+  (perm_invariant exD _ (List.reverse_perm _)).2
+example : resolve (exD.withConns (flipConns (fun i => i % 2 == 0) exD.conns)) = resolve exD :=
+  (flip_invariant exD _).2
+/-- the writer of the last net of the chain is the slice, because it shares bits with `z` -/
+example : related (exD.obj 1) (exD.obj 2) = true := by decide
+
 end PV.C08
